@@ -238,12 +238,8 @@ class AssignNormCont:
 
         before = dict(sh.__dict__)
         fr = Frame(exps=exps, coeffs=coeffs, coord=coord)
-        real = ov.Overlap.construct_array_contraction
-        ov.Overlap.construct_array_contraction = staticmethod(stub)
-        try:
+        with bind.patched((ov.Overlap, "construct_array_contraction", staticmethod(stub))):
             sh.assign_norm_cont()
-        finally:
-            ov.Overlap.construct_array_contraction = real
         fr.check(M, "assign_norm_cont")
         M.true("assign_norm_cont/pre@overlap", len(calls) == 1 and calls[0][0] is sh and calls[0][1] is sh and not calls[0][2],
                "self-overlap of the shell with itself, unscreened")
@@ -293,3 +289,56 @@ class NormContInline:
         for m in range(sa.M):
             for c in range(sa.L):
                 M.eq("norm_cont/%s/unit" % what + tag((m, c)), nc[m, c] * nc[m, c] * spec[m, c, m, c], 1)
+
+
+class OverlapInline:
+    """end to end, everything real (constructor, normalisation, kernels, assembly, exact transformation
+    matrices): every diagonal element of overlap_integral is exactly 1 for Cartesian, spherical and mixed
+    bases; the matrix is symmetric; overlap_integral_asymmetric(b1, b2) is the off-diagonal block of the
+    overlap of the union"""
+
+    function = "gbasis.integrals.overlap.overlap_integral / overlap_asymm.overlap_integral_asymmetric (inline)"
+
+    def shapes(self, tier):
+        out = []
+        lm = 2 if tier == "quick" else 4
+        for l in range(lm + 1):
+            out.append(dict(shells=[dict(l=l, K=1, M=1, type="spherical")]))
+            out.append(dict(shells=[dict(l=l, K=1, M=1, type="cartesian")]))
+        out.append(dict(shells=[dict(l=1, K=2, M=2, type="spherical")]))
+        out.append(dict(shells=[dict(l=2, K=2, M=1, type="spherical")]))
+        for t1 in ("cartesian", "spherical"):
+            for t2 in ("cartesian", "spherical"):
+                out.append(dict(shells=[dict(l=1, K=1, M=1, type=t1), dict(l=2 if tier == "thorough" else 0, K=1, M=1, type=t2)]))
+        out.append(dict(shells=[dict(l=0, K=2, M=2, type="cartesian"), dict(l=1, K=1, M=1, type="spherical")]))
+        if tier == "thorough":
+            out.append(dict(shells=[dict(l=2, K=1, M=1, type="spherical"), dict(l=1, K=2, M=1, type="cartesian"), dict(l=0, K=1, M=2, type="spherical")]))
+        return out
+
+    def run(self, shape, M):
+        ov = M.mods["gbasis.integrals.overlap"]
+        oa = M.mods["gbasis.integrals.overlap_asymm"]
+        shells = []
+        for i, sp in enumerate(shape["shells"]):
+            coeffs = M.vec("d%d" % i, (sp["K"], sp["M"]), "pos")
+            shells.append(make_shell(M, sp["l"], M.vec("A%d" % i, 3), coeffs, M.vec("e%d" % i, sp["K"], "pos"), coord_type=sp["type"]))
+        S = ov.overlap_integral(shells)
+        n = S.shape[0]
+        M.true("overlap_inline/square", S.shape == (n, n), str(S.shape))
+        for i in range(n):
+            M.eq("overlap_inline/diagonal" + tag((i,)), S[i, i], 1)
+            for j in range(i + 1, n):
+                M.eq("overlap_inline/symmetric" + tag((i, j)), S[i, j], S[j, i])
+        if len(shells) == 1 and shape["shells"][0]["M"] == 1:
+            for i in range(n):
+                for j in range(n):
+                    if i != j and shape["shells"][0]["type"] == "spherical":
+                        M.eq("overlap_inline/orthogonal-within-spherical-shell" + tag((i, j)), S[i, j], 0)
+        if len(shells) >= 2:
+            b1, b2 = shells[:1], shells[1:]
+            Sa = oa.overlap_integral_asymmetric(b1, b2)
+            n1 = Sa.shape[0]
+            M.true("overlap_inline/asymmetric-shape", Sa.shape == (n1, n - n1), str(Sa.shape))
+            for i in range(n1):
+                for j in range(n - n1):
+                    M.eq("overlap_inline/asymmetric-is-block-of-union" + tag((i, j)), Sa[i, j], S[i, n1 + j])
